@@ -33,6 +33,16 @@ pub enum Trial {
     ExitContract { specs: Vec<ExecSpec>, kinds: Vec<String>, class: String, exit_code: Option<i32>, label: String },
     /// C16: invalid option combination: rejected with non-zero status before any output is written.
     Rejected { spec: ExecSpec, label: String },
+    /// C10: [E10]/[E11] at an RDH's offset iff the reference models flag it.
+    RdhWalk { spec: ExecSpec, e10: Vec<u64>, e11: Vec<u64>, running: bool, label: String },
+    /// C09: in-process walk of the real FSM / payload validator against the diagram model.
+    FsmWalk {
+        #[serde(with = "crate::b64")]
+        words: Vec<u8>,
+        /// number of words per packet (the walk is cut into packets of one link)
+        packet_lens: Vec<u32>,
+        label: String,
+    },
     /// C12: words planted at chosen indices are reported exactly at their offsets (word cutting).
     Markers { spec: ExecSpec, marker_offsets: Vec<u64>, label: String },
     /// C12: a payload ending in more than 15 bytes of 0xFF: one payload error, nothing inside the
@@ -281,6 +291,8 @@ impl Trial {
             }
             Trial::Rejected { spec, label } => crate::t_exit::run_rejected(ex, spec, label),
             Trial::Truthful { spec, label } => crate::t_stream::run_truthful(ex, spec, label),
+            Trial::RdhWalk { spec, e10, e11, running, label } => run_rdh_walk(ex, spec, e10, e11, *running, label),
+            Trial::FsmWalk { words, packet_lens, label } => crate::t_fsm::run_fsm_walk(ex, words, packet_lens, label),
             Trial::Markers { spec, marker_offsets, label } => run_markers(ex, spec, marker_offsets, label),
             Trial::ExcessPadding { spec, rdh_off, payload_end, expect_only_payload_error, e30_at, label } => {
                 run_excess_padding(ex, spec, *rdh_off, *payload_end, *expect_only_payload_error, *e30_at, label)
@@ -312,6 +324,8 @@ impl Trial {
             Trial::Rejected { spec, .. } => vec![spec],
             Trial::Truthful { spec, .. } => vec![spec],
             Trial::Markers { spec, .. } => vec![spec],
+            Trial::RdhWalk { spec, .. } => vec![spec],
+            Trial::FsmWalk { .. } => vec![],
             Trial::ExcessPadding { spec, .. } => vec![spec],
             Trial::Views { plain, styled, .. } => vec![plain, styled],
             Trial::FilterWrite { base, .. } => vec![base],
@@ -392,6 +406,11 @@ impl Trial {
                 "runs": kinds, "exec": s(&specs[0])}),
             Trial::Rejected { spec, label } => json!({"trial": "rejected", "label": label, "exec": s(spec)}),
             Trial::Truthful { spec, label } => json!({"trial": "truthful", "label": label, "exec": s(spec)}),
+            Trial::RdhWalk { spec, e10, e11, running, label } => json!({
+                "trial": "rdh-walk", "label": label, "rdhs": spec.input.len() / 64, "expected_E10": e10.len(),
+                "expected_E11": if *running { e11.len() } else { 0 }, "exec": s(spec)}),
+            Trial::FsmWalk { words, packet_lens, label } => json!({
+                "trial": "fsm-walk", "label": label, "words": words.len() / 10, "packets": packet_lens.len()}),
             Trial::Markers { spec, marker_offsets, label } => json!({
                 "trial": "markers", "label": label, "marker_offsets": marker_offsets, "exec": s(spec)}),
             Trial::ExcessPadding { spec, rdh_off, payload_end, expect_only_payload_error, e30_at, label } => json!({
@@ -898,6 +917,61 @@ fn run_excess_padding(
             ));
             return out;
         }
+    }
+    out
+}
+
+fn run_rdh_walk(ex: &mut Executor, spec: &ExecSpec, e10: &[u64], e11: &[u64], running: bool, label: &str) -> TrialOutcome {
+    let r = ex.exec(spec);
+    let mut out = TrialOutcome {
+        nontrivial: r.outcome.threads >= 4 && spec.input.len() >= 3 * 64,
+        key: case_key(&spec.input, &r),
+        labels: vec![label.to_string()],
+        ..Default::default()
+    };
+    if let Some(f) = check_orderly(&r) {
+        out.fail = Some(f);
+        return out;
+    }
+    let errs = oracle::error_msgs(&r.stderr);
+    let offs = |code: &str| -> Vec<u64> {
+        let mut v: Vec<u64> = errs
+            .iter()
+            .filter(|e| e.codes.first().map_or(false, |c| c == code))
+            .filter_map(|e| e.offset)
+            .collect();
+        v.sort_unstable();
+        v
+    };
+    let tagm = |m: String| format!("{m} [cmd: {}]", spec.cmdline());
+    let cmp = |code: &str, want: &[u64], out: &mut TrialOutcome| -> bool {
+        let got = offs(code);
+        let mut want: Vec<u64> = want.to_vec();
+        want.sort_unstable();
+        if got != want {
+            let missing: Vec<String> = want.iter().filter(|o| !got.contains(o)).take(4).map(|o| format!("{o:#X}")).collect();
+            let extra: Vec<String> = got.iter().filter(|o| !want.contains(o)).take(4).map(|o| format!("{o:#X}")).collect();
+            let (site, what) = if !missing.is_empty() {
+                (format!("{code}-not-reported"), format!("RDHs the documented rules flag but the tool did not: {missing:?}"))
+            } else {
+                (format!("{code}-reported-without-rule"), format!("RDHs reported although no documented rule is violated: {extra:?}"))
+            };
+            let sample = errs.iter().find(|e| e.offset.map_or(false, |o| extra.contains(&format!("{o:#X}")))).map(|e| clip(&e.text));
+            out.fail = Some(Fail::new("rdh-rules", &site, tagm(format!("[{code}] {what}; model expects {} RDHs, tool reports {} (e.g. {sample:?})", want.len(), got.len()))));
+            return false;
+        }
+        true
+    };
+    if !cmp("E10", e10, &mut out) {
+        return out;
+    }
+    let want11: &[u64] = if running { e11 } else { &[] };
+    if !cmp("E11", want11, &mut out) {
+        return out;
+    }
+    // nothing else may be reported for RDH-only packets
+    if let Some(e) = errs.iter().find(|e| e.codes.first().map_or(true, |c| c != "E10" && c != "E11")) {
+        out.fail = Some(Fail::new("rdh-rules", "unexpected-message", tagm(clip(&e.text))));
     }
     out
 }
